@@ -11,6 +11,7 @@ from typing import Any, Dict, List, Optional, Tuple
 from harness.extract import nondet as x_nondet
 from harness.extract import nondet_seeding as x_seeding
 from harness.extract import nondet_output as x_output
+from harness.extract import nondet_loops as x_loops
 from harness.extract import sharedstate as x_shared  # C04's extractor, imported read-only
 from harness.lib import scen
 from harness.lib.core import REPO, SRC, VERIF, Ctx, Rng, lean_lock, run_driver
@@ -50,7 +51,18 @@ MANIFEST = {
             "is checked against the site's fact (C03_facts_support_discharges, C03_decl_uses_discharged, C03_identifier_uses); (2) the shape of "
             "set_random_seed / __init__ / reset is regenerated as Gen/NondetSeeding.lean and must be the shape the theorems are about, with "
             "seeding before the construction of the game (C03_gen_seed_shape, C03_gen_seed_before_build) and every draw made at call time from a "
-            "seeded family (C03_gen_draw_families_seeded). Of 74 discharges 15 rest on a model lemma alone, 52 on a mechanical fact plus a lemma "
+            "seeded family (C03_gen_draw_families_seeded); (3) the LOOPS that iterate a hash-ordered set (every `for` / comprehension / list() over a set "
+            "that is not `sorted(...)`) are translated statement by statement into a small loop language (Gen/NondetLoops.lean: assignments, if/else, "
+            "emits into accumulators, uninterpreted pure functions; how each accumulator is consumed afterwards - set() / len() / sorted() / by key / "
+            "not at all / in ORDER - followed into the callee or class it is handed to); proved for ALL loops and all interpretations of the pure "
+            "functions: a well-formed loop (no local carried from one iteration to the next, every accumulator consumed order-free, dict accumulators "
+            "keyed by the element) is a permutation-invariant consumer (C03_loop_wellformed_invariant, with a counterexample per clause); Gen "
+            "obligation: every site discharged by setToSet / setNoEffect / setLengthOnly / setDictByKey has a translated, well-formed loop with the "
+            "matching use (C03_gen_loops_order_free, C03_translated_loops_invariant); the path normal form of the listen_on_ports loop (symbolic "
+            "execution in the extractor, validated against the raw translation on a grid in Lean) is pinned and PROVED equal to the consumer "
+            "`listenPorts` the component rig validates (C03_gen_listen_loop_normal_form, C03_listen_normal_is_listenPorts); the callers of "
+            "get_open_ports (whose list order can depend on PYTHONHASHSEED through the insertion order of colliding ints) are pinned to membership "
+            "tests and a sorted table (C03_gen_ordered_result_consumers). Of 74 discharges 9 rest on a model lemma alone, 58 on a mechanical fact plus a lemma "
             "for the kind, 7 on a mechanical fact plus a trusted runtime fact, none is attributed to an open finding (C03_discharge_counts); none rests on "
             "reading alone. Correspondence tie: identical (scenario, seed, operations) in fresh interpreters whose PYTHONHASHSEED values are "
             "chosen to give pairwise different set orders of the scenario's string vocabularies, logging fully on / fully off, diffed step by step "
@@ -59,8 +71,11 @@ MANIFEST = {
             "obligation line); scenarios: nmap scans, data_manipulation (shipped and generated action maps), uc7 TAP001/TAP003 with generated "
             "stochastic settings (starting_nodes / target_ips lists, variance, stage probabilities), a generated routed/DMZ scenario with "
             "random, periodic, probabilistic and data-manipulation agents, nmap, database and web traffic; the seeding path and the consumer "
-            "models against the real set_random_seed / reset / nmap / from_config / topological_sort code through the Lean driver.",
+            "models against the real set_random_seed / reset / nmap / from_config / topological_sort code through the Lean driver; "
+            "from_config on generated lists of port NAMES (string-hashed) built in each of the three interpreters and compared.",
     "note": "C03-specific: that the inventory is complete is the extractor's job (syntactic, name-based set and identifier tracking; values "
+            "that two loops with the same path normal form are equivalent is the extractor's claim (validated on a grid, not proved); the loop "
+            "translator accepts only whitelisted pure calls and treats every other call as opaque; "
             "that travel through pydantic serialisation are invisible to the data-flow check); that CPython behaves as rho says (fresh uuids "
             "distinct, int hashing is the identity, dict order = insertion order) is trusted; F-9 is replayed with a pinned clock because it "
             "cannot be hit by re-running; the multi-agent Ray environment (never calls set_random_seed) cannot be imported in this sandbox and "
@@ -70,11 +85,12 @@ MANIFEST = {
                  "rig with a re-seed oracle",
     "design_ref": "5/C03",
 }
-MODULES = ["PrimaiteModel.Props.C03"]
+MODULES = ["PrimaiteModel.Props.C03", "PrimaiteModel.Props.C03Loops"]
 # basis of every reason of the discharge table (mirrors `Discharge.basis` in Lemmas/NondetDischarge.lean; the split itself is the
 # theorem C03_discharge_counts)
 BASIS = {**{r: "mechanical" for r in ("fixedWidthReading", "fixedLenSecret", "clockNotRead", "seededRng", "seeding", "unseededByConfig",
-                                                                     "offline", "setDeclCovered", "setEmpty", "setSingleton", "hashValueDiscarded", "setSorted")},
+                                                                     "offline", "setDeclCovered", "setEmpty", "setSingleton", "hashValueDiscarded", "setSorted",
+                                                                     "setToSet", "setNoEffect", "setLengthOnly", "setDictByKey")},
          **{r: "trusted" for r in ("hashNotIterated", "setMembershipOnly", "setIntHash", "idTextEqOnly")}}
 EXE = "drv_c03"
 SKIP = {"bad_primaite_session", "no_nodes_links_agents_network", "eval_only_primaite_session", "multi_agent_session", "data_manipulation_marl"}
@@ -791,16 +807,23 @@ def _site_impl(c: dict, game, lookup) -> str:
 
 
 # ------------------------------------------------------------------------------------------------ probes of single sites across processes
+def _port_lookup() -> Dict[str, int]:
+    from primaite.utils.validation.port import PORT_LOOKUP
+    return dict(PORT_LOOKUP)
+
+
 def probe_rig(ctx: Ctx):
     """Inventory sites evaluated stand-alone in fresh interpreters with different hash seeds (int-hashed port sets, nmap target
     expansion, open ports of a running game, topological_sort/graph_has_cycle on graphs whose neighbour sets are sets of strings)."""
     rng = ctx.rng.fork("probe")
     ports = [80, 21, 53, 443, 5432, 8080, 22, 123, 3389, 445, 631, 20, 25, 110, 143, 161, 162, 219, 389, 1433, 3306, 5004, 5005, 5353, 8443, 9, 115]
+    lrng = ctx.rng.fork("probe-listen")
     probe = {
         "int_sets": [[rng.choice(ports) for _ in range(rng.range(1, 12))] for _ in range(ctx.scale(30, 300))],
         "explode": [sites.gen_targets(rng) for _ in range(ctx.scale(20, 200))],
         "open_ports": True,
         "str_graphs": [],
+        "listen_lists": [sites.gen_listen_probe(lrng, _port_lookup()) for _ in range(ctx.scale(10, 60))],
     }
     names = ["defender", "attacker", "green_a", "green_b", "client_1_green_user", "data_manipulation_attacker", "x", "yy", "zzz"]
     for _ in range(ctx.scale(30, 300)):
@@ -843,6 +866,8 @@ def probe_rig(ctx: Ctx):
             ctx.violation({"kind": "topological-sort-not-dependencies-first"}, f"topological_sort on a set-valued graph: {bad_graphs[:2]}", {"probe": probe})
         ctx.count("probe:int-sets", len(pr["int_sets"]))
         ctx.count("probe:explode", len(pr["explode"]))
+        ctx.count("probe:listen-lists", len(pr.get("listen_lists", [])))
+        ctx.count("probe:listen-lists-raised", sum(1 for x in pr.get("listen_lists", []) if "raised" in x))
         ctx.count("probe:str-graphs", len(pr["str_graphs"]))
         ctx.count("probe:str-graphs-cyclic", sum(1 for g in pr["str_graphs"] if g["cycle"]))
     ctx.oblige("rig:stand-alone site probes agree across processes", "correspondence", ok, "" if ok else "see violations / worker output")
@@ -940,6 +965,7 @@ def run(ctx: Ctx):
         ok_x = ctx.extract("Nondet", x_nondet.emit)
         ok_s = ctx.extract("NondetSeeding", x_seeding.emit)
         ctx.extract("NondetOutput", x_output.emit)
+        ctx.extract("NondetLoops", x_loops.emit)
         ctx.extract("SharedState", x_shared.emit)
         proved = ctx.prove(MODULES, exes=[EXE], leanchecker=ctx.thorough)
     mark("extract+prove")
